@@ -40,7 +40,8 @@ TIES = {
         shapes=["rscp_Tag_String", "rscp_TagString", "rscp_TagValues", "rscp_Tag_IsATag", "rscp_Tag_DataType", "rscp_Tag_MarshalJSON",
                 "rscp_Tag_UnmarshalJSON", "rscp_Tag_isRequest", "rscp_Tag_isResponse", "rscp_DataType_String", "rscp_DataTypeString",
                 "rscp_DataType_IsADataType", "rscp_DataType_MarshalJSON", "rscp_DataType_UnmarshalJSON", "rscp_DataType_length",
-                "rscp_DataType_newEmpty", "rscp_DataType_new", "rscp_DataType_isValidValue", "rscp_var_newEmptyMap", "rscp_var_newMap", "rscp_var_validateMap"],
+                "rscp_DataType_newEmpty", "rscp_DataType_new", "rscp_DataType_isValidValue", "rscp_var_newEmptyMap", "rscp_var_newMap", "rscp_var_validateMap",
+                "rscp_Message_UnmarshalJSON", "rscp_Message_UnmarshalJSONValue"],
         leaves=["isRequest", "isResponse"]),
     "Log": dict(
         doc="Every Log call of package rscp (function:method:format,args) and the rendering of messages.",
